@@ -54,8 +54,10 @@ ASSUMPTIONS = ['object/attribute names pairwise distinct; tables with n,m >= 1',
                'floats are compared through the literal json.dumps writes (repr; Infinity / -Infinity); nan is not generated '
                '(nan != nan)',
                'in-place assignments into ps.data use values in the stored form (float pairs, sets, bools)',
-               'an MVContext whose attribute_names were reassigned is outside the scope (ps.name is read-only and stays '
-               'behind; recorded in the outside-scope stream)',
+               'MVContext.attribute_names = [list] is an ordinary route (renames the pattern structures too since 94822bb); '
+               'item assignment on the aliased attribute-name list and attribute_names = None bypass that renaming '
+               '(ps.name stays behind) and are outside the scope (recorded in the outside-scope stream); names are '
+               'given as lists (a tuple of names makes == raise against the read-back list)',
                'lattices have >= 3 concepts (writer precondition); children_dict of the original lattice is the cover '
                'relation of extent inclusion (C12); after add/remove/del the lattice\'s own children_dict/top/bottom are judged '
                'against the cover relation recomputed from its concepts']
@@ -252,8 +254,8 @@ CTX_ROUTES = ['objs', 'attrs', 'descr', 'table', 'table_native', 'h4_rows', 'h4_
 CTX_FMTS = ['cxt', 'json', 'csv', 'pandas']
 MV_USES = ['write_json', 'hash_fixed', 'hash', 'data', 'eq', 'from_objects', 'intention', 'extension', 'lattice', 'to_numeric',
            'getitem']
-MV_ROUTES = ['ps_data', 'ps_cell', 'ps_list', 'ps_item', 'ps_item_class', 'objs', 'obj_item', 'descr', 'alias_data', 'h4_pyhash_set',
-             'h4_pyhash_cell', 'h4_adler_cell', 'h4_adler_name']
+MV_ROUTES = ['ps_data', 'ps_cell', 'ps_list', 'ps_item', 'ps_item_class', 'objs', 'obj_item', 'attrs', 'descr', 'alias_data', 'h4_pyhash_set',
+             'h4_pyhash_cell', 'h4_adler_cell', 'h4_adler_name', 'h4_adler_attr']
 LAT_USES = ['write_json', 'children_dict', 'parents_dict', 'descendants_dict', 'ancestors_dict', 'top_bottom', 'eq', 'T',
             'chains', 'measures']
 
@@ -363,7 +365,7 @@ def mv_route_step(rng, route, sh, col=None):
     `col` fixes the column the step works on"""
     m, n = len(sh['types']), len(sh['objs'])
     j = rng.randrange(m) if col is None else col
-    if route.startswith('h4_') and route != 'h4_adler_name':
+    if route.startswith('h4_') and route not in ('h4_adler_name', 'h4_adler_attr'):
         twin = _pyhash_twin if 'pyhash' in route else _adler_twin
         cands = [(jj, ii) for jj in range(m) for ii in range(n) if twin(sh['cols'][jj][ii]) is not None]
         if col is not None and any(jj == col for jj, _ in cands):
@@ -385,6 +387,16 @@ def mv_route_step(rng, route, sh, col=None):
                 names[i] = nm2
                 return ['objs', names, route]
         route = 'objs'
+    if route == 'h4_adler_attr':
+        names = list(sh['attrs'])
+        for i, nm in enumerate(names):
+            nm2 = G.adler_collide_name(nm)
+            if nm2 is not None and nm2 not in names:
+                names[i] = nm2
+                return ['attrs', names, route]
+        route = 'attrs'
+    if route == 'attrs':               # `K.attribute_names = [...]`: renames the attributes AND the pattern structures (D25)
+        return ['attrs', _other_names(rng, sh['attrs'])]
     if route == 'ps_item_class':       # the structure is replaced by one of the OTHER interval class (same or new column)
         if sh['types'][j] not in INTERVAL_T:
             cands = [jj for jj in range(m) if sh['types'][jj] in INTERVAL_T]
@@ -440,6 +452,8 @@ def mv_shadow_apply(sh, st):
     elif st[0] == 'obj_item':
         sh['objs'] = list(sh['objs'])
         sh['objs'][st[1]] = st[2]
+    elif st[0] == 'attrs':
+        sh['attrs'] = list(st[1])
     elif st[0] == 'descr':
         sh['descr'] = st[1]
     return sh
@@ -456,7 +470,7 @@ HMV_BASE_COLS = {
 
 def _hmv_base(T, other=None):
     other = other or ('SetPS' if T != 'SetPS' else 'IntervalPS')
-    return dict(objs=['bdb', 'g 1', 'o'], attrs=['m0', 'm 1'], types=[T, other], descr=None,
+    return dict(objs=['bdb', 'g 1', 'o'], attrs=['mdm', 'm 1'], types=[T, other], descr=None,
                 cols=[list(HMV_BASE_COLS[T]), list(HMV_BASE_COLS[other])])
 
 
@@ -534,12 +548,15 @@ def gen_histories(tier, rng):
                 c['steps'].append(st)
         c['steps'].append(['check'])
         yield c
-    # ---- outside the scope (never judged, only recorded): `K.attribute_names = ...` on an MVContext leaves the names of
-    #      the pattern structures (`ps.name`, read-only) as they were; the file stores the attribute names only, so the
+    # ---- outside the scope (never judged, only recorded): `K.attribute_names = [...]` renames the pattern structures too
+    #      since the repair 94822bb (D25; now an ordinary route, 'attrs').  Two forms still bypass that renaming and
+    #      leave `ps.name` / `pattern_types` behind: item assignment on the aliased list `K.attribute_names[j] = ...`
+    #      and `K.attribute_names = None` (reset to '0','1',...).  The file stores the attribute names only, so the
     #      context read back has OTHER pattern-structure names and `==` is False (MVOk.names excludes such contexts)
     for T in PTYPES:
         base = _hmv_base(T)
-        yield _hmv_case('outside-scope', base, [['check'], ['attrs_outside', ['p', 'q']], ['check']])
+        yield _hmv_case('outside-scope', base, [['check'], ['attr_item_outside', 1, 'q'], ['check']])
+        yield _hmv_case('outside-scope', base, [['check'], ['attrs_none_outside'], ['check']])
     # ---- lattices: written, a concept removed / re-added (with and without cache filling) / a measure set, written again ---
     lat_tabs = [t for i, t in enumerate(G.tables_upto(3, 3)) if len(t) >= 2 and len(t[0]) >= 2 and G.is_mixed(t)]
     lat_tabs = lat_tabs[::7] if quick else lat_tabs
@@ -1166,9 +1183,17 @@ def mv_apply(K, sh, st):
         sh['types'] = list(types)
         sh['types'][st[1]] = st[2]
         sh['cols'][st[1]] = [norm_val(st[2], dec_val(v)) for v in st[3]]
-    elif st[0] == 'attrs_outside':       # (outside the property's scope, see gen_histories: recorded, never judged)
+    elif st[0] == 'attrs':               # the setter renames attributes and pattern structures together (repair 94822bb)
         K.attribute_names = list(st[1])
         sh['attrs'] = list(st[1])
+        sh['ps_names'] = list(st[1])
+    elif st[0] == 'attr_item_outside':   # (outside the property's scope, see gen_histories: recorded, never judged)
+        K.attribute_names[st[1]] = st[2]
+        sh['attrs'] = list(sh['attrs'])
+        sh['attrs'][st[1]] = st[2]
+    elif st[0] == 'attrs_none_outside':
+        K.attribute_names = None
+        sh['attrs'] = [str(i) for i in range(len(sh['attrs']))]
     elif st[0] == 'objs':
         K.object_names = list(st[1])
         sh['objs'] = list(st[1])
@@ -1184,6 +1209,29 @@ def mv_apply(K, sh, st):
     else:
         raise ValueError(st[0])
     return sh
+
+
+def mv_byname(K, with_slice=True):
+    """the by-name face of the context under its CURRENT names: `intention` keys, `extension({name: d})` against the
+    by-index answer, `pattern_types` keys, and the one-object slice `K[:1]`"""
+    out = {}
+    try:
+        d_i = K.intention_i([0])
+        d = K.intention([K.object_names[0]])
+        out['intention_keys'] = list(d.keys())
+        out['ext'] = []
+        for j, nm in enumerate(K.attribute_names):
+            by_i = K.extension_i({j: d_i[j]})
+            out['ext'].append([list(K.extension({nm: d_i[j]})), [K.object_names[g] for g in by_i]])
+        out['ptype_keys'] = sorted(K.pattern_types.keys())
+        S = K[:1] if with_slice else None
+        if S is not None:
+            out['slice'] = dict(objs=list(S.object_names), attrs=list(S.attribute_names),
+                                cols=[dict(name=ps.name, data=[pval(type(ps).__name__, x) for x in ps.data])
+                                      for ps in S.pattern_structures])
+    except Exception as e:
+        out['err'] = exc_name(e) + ': ' + str(e)[:200]
+    return out
 
 
 def impl_hmv(c):
@@ -1209,6 +1257,11 @@ def impl_hmv(c):
                 out['read'] = {'err': exc_name(e)}
                 kept.append(None)
             out['obs'] = mv_fields(K)
+            if c['stream'] != 'outside-scope':
+                # (slicing an MVContext that holds an IntervalNumpyPS column raises TypeError on the unchanged code — the
+                #  rows handed to the new context are ndarrays — and a structure replaced by one of another class leaves
+                #  `pattern_types` behind: both are outside C07 and reported separately; no slice is taken there)
+                out['byname'] = mv_byname(K, 'IntervalNumpyPS' not in sh['types'] and sh['types'] == types)
             checks.append(out)
         else:
             before = sh
@@ -1575,6 +1628,22 @@ def hist_requests(c, io):
     raise ValueError(fmt)
 
 
+def judge_byname(b, s):
+    """by-name derivation and slicing under the current names (the names a rename installed must be usable)"""
+    if 'err' in b:
+        return bad('property', f'by-name use of the context with the current names {s["attrs"]} raised {b["err"]}')
+    if b['intention_keys'] != s['attrs'] or b['ptype_keys'] != sorted(s['attrs']):
+        return bad('property', f'intention keys {b["intention_keys"]} / pattern_types keys {b["ptype_keys"]} are not the current '
+                               f'attribute names {s["attrs"]}')
+    for nm, (by_name, by_index) in zip(s['attrs'], b['ext']):
+        if by_name != by_index:
+            return bad('property', f'extension by the name {nm!r} gives {by_name}, by its index {by_index}')
+    want = dict(objs=s['objs'][:1], attrs=s['attrs'], cols=[dict(name=c_['name'], data=c_['data'][:1]) for c_ in s['cols']])
+    if 'slice' in b and b['slice'] != want:
+        return bad('property', f'K[:1] is {b["slice"]}, expected {want}')
+    return dict(ok=True)
+
+
 def _where(c, k):
     return f'history {c["steps"]}, check #{k}: '
 
@@ -1600,6 +1669,8 @@ def judge_hist(c, io, rep):
             if ch['obs'] != s:
                 return bad('property', _where(c, k) + f'the context reads {ch["obs"]} through its public getters, the history made it {s}')
             v = judge_mv(c, dict(ch, orig=s), r)
+            if v['ok'] and 'byname' in ch:
+                v = judge_byname(ch['byname'], s)
         else:
             oo, ao = io['objs_order'], io['attrs_order']
             obs = [canon_concept(x, oo, ao) for x in ch['orig']['concepts']]
@@ -1667,8 +1738,9 @@ def branch(c, io, rep):
         out.extend('hist-note:' + x for x in io.get('notes', []))
         if c['stream'] == 'outside-scope' and io.get('checks'):
             ch = io['checks'][-1]
-            out.append('outside:mv-attribute-rename:' + ('still-round-trips' if ch.get('read') == ch['shadow'] and ch.get('eq') is True
-                                                         else 'outside(ps.name stale; ==: %s)' % (ch.get('eq'),)))
+            form = [st[0] for st in c['steps'] if st[0].endswith('_outside')][0]
+            out.append('outside:mv-' + form + ':' + ('still-round-trips' if ch.get('read') == ch['shadow'] and ch.get('eq') is True
+                                                     else 'outside(ps.name stale; ==: %s)' % (ch.get('eq'),)))
         return out
     if c['fmt'] in ('lat', 'mvlat'):
         out.append('lattice:' + ('<3 concepts' if io.get('n', 0) < 3 else '>=3 concepts'))
